@@ -3,7 +3,7 @@
 #   applies, builds, full suite passes with it, demo fails with it, demo passes without it.
 # Writes /tmp/seedout/<Cxx>/<mN>/verified.json ; removes the worktree afterwards.
 P=$1; M=$2
-SRC=/tmp/seedout/$P/$M
+SRC=${SEEDOUT:-/tmp/seedout}/$P/$M
 WT=/tmp/vw/$P-$M
 mkdir -p /tmp/vw
 git -C /repo worktree remove --force $WT >/dev/null 2>&1
